@@ -212,7 +212,22 @@ class BaseSamples:
             x = np.stack([dictionary[p] for p in parameters], axis=-1)
             for p in parameters:
                 dictionary.pop(p, None)
-        return cls(x=x, parameters=parameters, **dictionary)
+        # Derived fields (e.g. weights) are written by to_dict but are not
+        # accepted by the constructor; they are recomputed on construction
+        init_fields = {f.name for f in fields(cls) if f.init}
+        dictionary = {k: v for k, v in dictionary.items() if k in init_fields}
+        samples = cls(x=x, parameters=parameters, **dictionary)
+        # The constructor recomputes the evidence of weighted samples; keep
+        # the stored values (e.g. carried over from a parent set by slicing)
+        if getattr(samples, "log_w", None) is not None:
+            for key in ("log_evidence", "log_evidence_error"):
+                if dictionary.get(key) is not None:
+                    setattr(
+                        samples,
+                        key,
+                        samples.array_to_namespace(dictionary[key]),
+                    )
+        return samples
 
     def to_dataframe(self, include: list[str] | None = None) -> "pd.DataFrame":
         """Convert the samples to a pandas DataFrame.
